@@ -99,7 +99,8 @@ PVerify(e) ==
      THEN Viol(e, "OffChainRefused", IF honest THEN "exported" ELSE "mutated", [proof |-> e.proof]) ELSE TRUE
 
 \* ------------------------------------------------------------- Layer M
-EntOf(j) == [ex |-> j.ex, acct |-> j.acct, kern |-> j.kern, proof |-> j.proof]
+EntOf(j) == [ex |-> j.ex, acct |-> j.acct, kern |-> j.kern, proof |-> j.proof,
+            db |-> FieldOr(j, "db", 0), cr |-> FieldOr(j, "cr", 0), fee |-> FieldOr(j, "fee", 0)]
 \* the fields of an observation that the model predicts, per operation
 Seen(e) ==
   CASE e.ev = "init"     -> [op |-> "init", res |-> e.res, amt |-> FieldOr(e, "amt", -1), fee |-> FieldOr(e, "fee", -1),
@@ -109,10 +110,10 @@ Seen(e) ==
     [] e.ev = "tamper"   -> [op |-> "tamper", res |-> e.res, proof |-> FieldOr(e, "proof", NoSlateProof)]
     [] e.ev = "finalize" -> [op |-> "finalize", res |-> e.res, reply |-> FieldOr(e, "reply", NoSlateProof),
                              ent |-> IF "ent" \in DOMAIN e THEN EntOf(e.ent) ELSE ObsEnt(NoEnt), kern |-> FieldOr(e, "kern", "")]
-    [] e.ev = "export"   -> [op |-> "export", res |-> e.res, proof |-> e.proof]
-    [] e.ev \in {"mine", "fork", "remine"} -> [op |-> IF e.ev = "remine" THEN "mine" ELSE e.ev, res |-> e.res, onchain |-> e.onchain]
-    [] e.ev = "verify"   -> [op |-> "verify", res |-> e.res, proof |-> e.proof, onchain |-> e.onchain,
-                             smine |-> e.smine, rmine |-> e.rmine]
+    [] e.ev = "export"   -> [op |-> "export", res |-> e.res, proof |-> FieldOr(e, "proof", NoProof)]
+    [] e.ev \in {"mine", "fork", "remine"} -> [op |-> IF e.ev = "remine" THEN "mine" ELSE e.ev, res |-> e.res, onchain |-> FieldOr(e, "onchain", FALSE)]
+    [] e.ev = "verify"   -> [op |-> "verify", res |-> e.res, proof |-> FieldOr(e, "proof", NoProof), onchain |-> FieldOr(e, "onchain", FALSE),
+                             smine |-> FieldOr(e, "smine", FALSE), rmine |-> FieldOr(e, "rmine", FALSE)]
 Differing(a, b) == {f \in DOMAIN a : f \notin DOMAIN b \/ a[f] # b[f]}
 
 TStep ==
